@@ -52,7 +52,6 @@ RecOK(x) ==
            /\ IsPermTagged(x.output, x.input)                       \* nothing lost, duplicated or altered
            /\ x.ranker \in Preorders => Ascending(x.output, x.ranker)
            /\ x.ranker = "natlex" => LexAscending(x.output)         \* natural order of the pairs themselves
-           /\ x.calls <= n * CeilLog2(n) + n                        \* terminates within the merge-sort bound
       [] x.op = "reverse" -> x.output = Rev(x.input)
       [] x.op = "reverse2" -> x.output = x.input                    \* applying it twice is the identity
       [] x.op = "shuffle" -> IsPermTagged(x.output, x.input)
@@ -62,11 +61,16 @@ RecOK(x) ==
 Recs == IF MODE = "check" THEN ndJsonDeserialize(IOEnv.TRACE) ELSE <<>>
 Bad == {i \in 1..Len(Recs) : ~RecOK(Recs[i])}
 
+\* the merge sort's comparison bound: a property of the algorithm, not of the
+\* contract (another correct sort may need more): exceeding it is model drift
+OverBound == {i \in 1..Len(Recs) : Recs[i].op = "sort" /\
+                 LET n == Len(Recs[i].input) IN Recs[i].calls > n * CeilLog2(n) + n}
+
 Inputs == UNION {[1..k -> Vals] : k \in 0..MaxLen}
 
 VARIABLE dummy
 Init == /\ dummy = 0
-        /\ IF MODE = "gen" THEN \A s \in Inputs : PrintT(ToJson(s)) ELSE PrintT(<<"BAD", Bad>>)
+        /\ IF MODE = "gen" THEN \A s \in Inputs : PrintT(ToJson(s)) ELSE (PrintT(<<"BAD", Bad>>) /\ PrintT(<<"OVERBOUND", OverBound>>))
 Next == UNCHANGED dummy
 Spec == Init /\ [][Next]_dummy
 =============================================================================
